@@ -247,8 +247,8 @@ def gen_plan(rng, tier):
             ops.append(["compute", e])
         elif r < 0.5:
             s = rng.randrange(nsets)
-            mode = rng.choice(["fresh", "same", "permute", "permute", "handover", "mixed", "reversed", "same_list",
-                               "inplace", "inplace"])
+            mode = rng.choice(["fresh", "fresh", "same", "permute", "permute", "handover", "mixed", "reversed",
+                               "same_list", "inplace", "inplace"])
             ops.append(["set_labels", e, s, mode, rng.randrange(1 << 30)])
             engine_set[e] = s
         elif r < 0.6:
